@@ -1194,3 +1194,7 @@ class Network:
 
         self._log_connections_task.cancel()
         self._upnp_task.cancel()
+        # The watchdog is normally stopped when the server connection goes to
+        # the CLOSING state on request. That state is never entered when the
+        # connection was already lost: the watchdog would reconnect afterwards
+        self._connection_watchdog_task.cancel()
